@@ -24,7 +24,7 @@ AT = dict(sibling=0x01, location=0x02, name=0x03, ordering=0x09, byte_size=0x0b,
           specification=0x47, type=0x49, virtuality=0x4c, data_location=0x50, byte_stride=0x51, entry_pc=0x52,
           ranges=0x55, endianity=0x65, decimal_sign=0x5e, object_pointer=0x64, linkage_name=0x6e, alignment=0x88,
           defaulted=0x8b, comp_dir=0x1b, call_line=0x59, call_column=0x57, call_file=0x58, explicit=0x63, rank=0x71,
-          enum_class=0x6d, main_subprogram=0x6a, segment=0x46, static_link=0x48, use_location=0x4a, vtable_elem_location=0x4d, data_bit_offset=0x6b, const_expr=0x6c, noreturn=0x87)
+          enum_class=0x6d, main_subprogram=0x6a, macro_info=0x43, MIPS_linkage_name=0x2007, GNU_all_tail_call_sites=0x2116, GNU_all_call_sites=0x2117, GNU_deleted=0x211a, segment=0x46, static_link=0x48, use_location=0x4a, vtable_elem_location=0x4d, data_bit_offset=0x6b, const_expr=0x6c, noreturn=0x87)
 FORM = dict(addr=0x01, block2=0x03, block4=0x04, data2=0x05, data4=0x06, data8=0x07, string=0x08, block=0x09,
             block1=0x0a, data1=0x0b, flag=0x0c, sdata=0x0d, strp=0x0e, udata=0x0f, ref_addr=0x10, ref1=0x11, ref2=0x12,
             ref4=0x13, ref8=0x14, ref_udata=0x15, indirect=0x16, sec_offset=0x17, exprloc=0x18, flag_present=0x19,
